@@ -3,6 +3,7 @@ package main
 import (
 	"bytes"
 	"fmt"
+	"sort"
 	"strings"
 
 	"github.com/go-git/go-git/v6/config"
@@ -47,18 +48,13 @@ func classifyBool(v gval) string {
 	}
 	last := s[len(s)-1]
 	switch {
-	case strings.ContainsAny(string(last), "kKmMgG"):
-		return "int-" + z + "unit-suffix"
-	case strings.HasPrefix(strings.TrimLeft(s, "+-"), "0") && len(strings.TrimLeft(s, "+-")) > 1:
-		return "int-" + z + "hex-or-octal"
-	case s[0] == '+':
-		return "int-" + z + "plus-sign"
-	case s[0] == '-':
-		return "int-" + z + "negative"
+	case strings.ContainsAny(string(last), "kKmMgG"),
+		strings.HasPrefix(strings.TrimLeft(s, "+-"), "0") && len(strings.TrimLeft(s, "+-")) > 1:
+		return "int-" + z + "unit-suffix-or-base-prefix" // 1k 2M 0x1 010
 	case s[0] == ' ' || s[0] == '\t':
 		return "int-" + z + "leading-space"
 	}
-	return "int-" + z + "decimal"
+	return "int-" + z + "other-decimal" // 2 42 -1 +1
 }
 
 func classifyInt(v gval) string {
@@ -205,9 +201,10 @@ func checkTyped(c *vf.Ctx, st *textState, f *cfgFile, text []byte, recs, gg []re
 		st.mu.Unlock()
 		return
 	}
+	checkRewrite(c, st, cfg, text, fileIdx)
 	gm, _ := group(recs)
 	mm, _ := group(gg)
-	for _, u := range f.Units {
+	for ui, u := range f.Units {
 		if u.Typed == "" {
 			continue
 		}
@@ -234,8 +231,24 @@ func checkTyped(c *vf.Ctx, st *textState, f *cfgFile, text []byte, recs, gg []re
 		conf := func(typ, wantOut string, wantOK bool) string {
 			k := typ + "|" + showVal(last)
 			st.mu.Lock()
+			_, have := st.confs[k]
+			st.mu.Unlock()
+			if have {
+				return k
+			}
+			// confirmation text: this key alone with only its last line (git --get converts
+			// every value of a multi-valued key and dies on an earlier bad one)
+			iso := f.isolate(ui)
+			iso.Units[0].Lines = iso.Units[0].Lines[len(iso.Units[0].Lines)-1:]
+			rebuild(iso)
+			ctext := []byte(iso.render())
+			rr, ok := gitParse(ctext)
+			if !ok || len(rr) != 1 || rr[0].Value != last {
+				return k // not registered here; another occurrence of the same value will be
+			}
+			st.mu.Lock()
 			if _, ok := st.confs[k]; !ok {
-				st.confs[k] = typedConf{typ: typ, fullKey: fullKey, text: text, wantOut: wantOut, wantOK: wantOK}
+				st.confs[k] = typedConf{typ: typ, fullKey: fullKey, text: ctext, wantOut: wantOut, wantOK: wantOK}
 			}
 			st.mu.Unlock()
 			return k
@@ -299,6 +312,71 @@ func checkTyped(c *vf.Ctx, st *textState, f *cfgFile, text []byte, recs, gg []re
 			if s != want && !(s == "0" && want == "") {
 				fail("", "string:"+u.Typed+":"+classifyInt(last), fmt.Sprintf("%s = %s: go-git field is %q (text %q)", fullKey, showVal(last), s, text))
 			}
+		}
+	}
+}
+
+// checkRewrite: a config go-git has read is written again (Config.Marshal) and must be read
+// back by git as the values go-git holds (its Raw after Marshal) and by go-git as the same Config.
+func checkRewrite(c *vf.Ctx, st *textState, cfg *config.Config, text []byte, fileIdx int) {
+	before := project(cfg)
+	var b2 []byte
+	var err error
+	add := func(rw int, key, what string) {
+		st.mu.Lock()
+		st.pending = append(st.pending, pendingFail{file: fileIdx, rw: rw, key: key, what: what, replay: map[string]any{"text": string(text), "rewritten": string(b2)}})
+		st.mu.Unlock()
+	}
+	if p, stk := vf.Catch(func() { b2, err = cfg.Marshal() }); p != nil {
+		add(0, "rewrite:marshal-panic", fmt.Sprintf("Marshal after ReadConfig(%q) panicked: %v\n%s", text, p, stk))
+		return
+	}
+	if err != nil {
+		add(0, "rewrite:marshal-error", fmt.Sprintf("Marshal after ReadConfig(%q): %v", text, err))
+		return
+	}
+	c.Count("rewrites", 1)
+	want, _ := group(flatten(cfg.Raw))
+	rr, ok := gitParse(b2)
+	if !ok {
+		st.mu.Lock()
+		st.rwRejected = append(st.rwRejected, rwReject{file: fileIdx, text: b2, orig: text})
+		st.mu.Unlock()
+		return
+	}
+	recs := toRecs(rr)
+	st.mu.Lock()
+	st.rewrites = append(st.rewrites, rewriteCase{text: b2, recs: recs})
+	rw := len(st.rewrites)
+	st.mu.Unlock()
+	gm, _ := group(recs)
+	if eq, d := groupsEqual(want, gm); !eq {
+		add(rw, "rewrite:git-reads-different", fmt.Sprintf("read %q, wrote %q: go-git holds / git reads: %s", text, b2, d))
+	}
+	var cfg2 *config.Config
+	if p, stk := vf.Catch(func() { cfg2, err = config.ReadConfig(bytes.NewReader(b2)) }); p != nil {
+		add(rw, "rewrite:gogit-readback-panic", fmt.Sprintf("%v\n%s", p, stk))
+		return
+	}
+	if err != nil {
+		add(rw, "rewrite:gogit-readback-error", fmt.Sprintf("read %q, wrote %q, reading that back: %v", text, b2, err))
+		return
+	}
+	after := project(cfg2)
+	var ks []string
+	for k := range before {
+		ks = append(ks, k)
+	}
+	for k := range after {
+		if _, ok := before[k]; !ok {
+			ks = append(ks, k)
+		}
+	}
+	sort.Strings(ks)
+	for _, k := range ks {
+		if before[k] != after[k] {
+			field, _, _ := strings.Cut(k, "|")
+			add(rw, "rewrite:gogit-reads-different:"+field, fmt.Sprintf("read %q -> %s = %q; wrote %q; read back %s = %q", text, k, before[k], b2, k, after[k]))
 		}
 	}
 }
